@@ -320,4 +320,4 @@ def constructions_3d_lattice(ctx):
                 got = bool(is_perpendicular(g.Plane(*n_, c1), g.Plane(*[f * x for x in n_], c2)))
             except Exception as ex:
                 got = "%s" % type(ex).__name__
-            ctx.ensure("3d:is_perpendicular(parallel-planes)-is-False", got is False, witness=dict(e=n_ + (c1,), f=tuple(f * x for x in n_) + (c2,), got=got), excuse=("KF-C10-1", None))
+            ctx.ensure("3d:is_perpendicular(parallel-planes)-is-False", got is False, witness=dict(e=n_ + (c1,), f=tuple(f * x for x in n_) + (c2,), got=got))
